@@ -138,6 +138,12 @@ class Model:
             for r in g.subs:
                 self.group_of[id(r)] = g
         self.computed = rec.get("computed_fields") or {}
+        # the specification files mark calculated bit-fields themselves ("calculated": "INVERSE")
+        self.spec_calculated = set()
+        for r in regs:
+            for b, raw in zip(r.bitfields, r.raw.get("bitfields", []) or []):
+                if "calculated" in raw:
+                    self.spec_calculated.add((r.uid, b.uid))
         self.problems = regspec.layout_problems(regs, check_overlap=self.area != "fuses")
         self.span = max((r.offset + max(1, r.width // 8) for r in regs), default=0)
         self.clean = not [p for p in self.problems if not p.startswith("bitfield_offset_mismatch")]
@@ -735,6 +741,13 @@ def run_defaults(case, o: Oracle) -> None:
         else:
             o.check("registers_loaded", list(sett.keys()) == list(m.presets.keys()), "template_presets",
                     "%s: template presets differ from the preset file (%d vs %d)" % (t, len(sett), len(m.presets)))
+
+    # ---------------- the database's computed fields and the specification's own 'calculated' marks
+    if area in ("pfr", "ifr") and m.computed:
+        declared = {(ru, bu) for ru, fs in m.computed.items() for bu in fs}
+        o.check("computed", m.spec_calculated <= declared, "declared_incomplete",
+                "%s: the specification marks %s as calculated, the database computes only %s" % (t, sorted(m.spec_calculated - declared)[:4], sorted(declared)[:6]))
+        o.label("computed_declared")
 
     # ---------------- registers of the object are those of the specification
     fresh = None
